@@ -106,6 +106,8 @@ func putForRules(rs *lexgen.RuleSet) (*put, string) {
 		switch entry {
 		case "bytes":
 			ast, err = p.ParseBytes(filename, in, opts...)
+		case "namedreader":
+			ast, err = p.Parse(filename, fixtures.NamedReader{Reader: bytes.NewReader(in)}, opts...)
 		case "reader", "slowreader":
 			ast, err = p.Parse(filename, bytes.NewReader(in), opts...)
 		default:
@@ -145,8 +147,12 @@ func wellFormed(p *put, c *c06Case, in []byte, ast any, err error, r *vstat.Run)
 		}
 		return outcome{}
 	}
+	wantFile := c.Filename
+	if c.Entry == "namedreader" && wantFile == "" {
+		wantFile = fixtures.ReaderName // documented fallback: the reader's own name when no filename is given
+	}
 	// is it a lexing failure?
-	toks, lexErr := p.lex(c.Filename, in)
+	toks, lexErr := p.lex(wantFile, in)
 	if lexErr != nil {
 		if !fixtures.IsNil(ast) {
 			return violationf("ast-on-lex-error", "%s: lexing fails (%v) but a non-nil AST was returned with the error %v", desc, lexErr, err)
@@ -165,7 +171,7 @@ func wellFormed(p *put, c *c06Case, in []byte, ast any, err error, r *vstat.Run)
 		return violationf("error-type", "%s: error %q (%T) does not implement participle.Error", desc, err, err)
 	}
 	pos := perr.Position()
-	if pos.Filename != c.Filename {
+	if pos.Filename != wantFile {
 		return violationf("error-filename", "%s: error position carries filename %q: %v", desc, pos.Filename, err)
 	}
 	if pos.Line == 0 && pos.Column == 0 && pos.Offset == 0 {
@@ -522,7 +528,7 @@ func propC06(t *rapid.T, r *vstat.Run) {
 		}
 	}
 	{
-		entry := rapid.SampledFrom([]string{"string", "string", "bytes", "reader", "slowreader"}).Draw(t, "entry")
+		entry := rapid.SampledFrom([]string{"string", "string", "bytes", "reader", "slowreader", "namedreader"}).Draw(t, "entry")
 		filename := rapid.SampledFrom([]string{"f", "", "dir/x.cfg", "é"}).Draw(t, "filename")
 		switch k := rapid.IntRange(0, 9).Draw(t, "kind"); {
 		case k <= 5 && len(fxs) > 0:
